@@ -424,11 +424,13 @@ pub struct FCase {
     ids: Vec<VarId>,
     /// a point that later `fl.prune` rows are built around (oracle side only)
     witness: Option<Vec<FV>>,
+    /// propagators posted by `fl.post` (engine-level cases)
+    posts: Vec<FK>,
 }
 
 impl FCase {
     pub fn new() -> Self {
-        FCase { fi: FloatInterval::with_step_unchecked(0.0, 0.0, 1.0), vars: Vars::new(), ids: vec![], witness: None }
+        FCase { fi: FloatInterval::with_step_unchecked(0.0, 0.0, 1.0), vars: Vars::new(), ids: vec![], witness: None, posts: vec![] }
     }
     fn state(&self, i: usize) -> VState {
         match &self.vars[self.ids[i]] {
@@ -1556,6 +1558,24 @@ pub fn apply(fc: &mut FCase, out: &mut Out, line: &str) {
             }
             apply_prune(fc, out, line, &k);
         }
+        "fl.post" => {
+            let Some(k) = FK::parse(&ws[1..]) else { out.emit(line, "bad-op"); return };
+            let deep = match &k { FK::Leq(x, y) | FK::Eq(x, y) | FK::Lt(x, y) => x.depth() > 1 || y.depth() > 1, _ => false };
+            if deep || k.max_var().map_or(false, |m| m >= fc.ids.len()) {
+                out.emit(line, "bad-op");
+                return;
+            }
+            out.emit(line, format!("p{}", fc.posts.len()));
+            out.stat(&format!("post.{}", k.name()));
+            fc.posts.push(k);
+        }
+        "fl.solve" => {
+            let (Some(seed), Some(fuel)) = (ws.get(1).and_then(|s| s.parse::<i64>().ok()), ws.get(2).and_then(|s| s.parse::<usize>().ok())) else {
+                out.emit(line, "bad-op");
+                return;
+            };
+            apply_solve(fc, out, line, seed, fuel);
+        }
         w if w.starts_with("fl.fi.") => apply_fi(fc, out, line, &ws),
         _ => {
             out.emit(line, "bad-op");
@@ -2044,6 +2064,15 @@ pub fn suite(out: &mut Out, seed: u64, count: u64, args: &[String]) {
         }
         return;
     }
+    if mode == "probe" {
+        suite_probe(out);
+        return;
+    }
+    if mode == "eng-exh" {
+        let u: i64 = args.iter().position(|a| a == "--universe").and_then(|i| args.get(i + 1)).and_then(|s| s.parse().ok()).unwrap_or(6);
+        suite_engine_exhaustive(out, u);
+        return;
+    }
     if mode == "exh" {
         let u: i64 = args.iter().position(|a| a == "--universe").and_then(|i| args.get(i + 1)).and_then(|s| s.parse().ok()).unwrap_or(3);
         case_selftest(out);
@@ -2055,11 +2084,12 @@ pub fn suite(out: &mut Out, seed: u64, count: u64, args: &[String]) {
     for c in 0..count {
         let mut r = root.fork();
         let id = format!("f{seed}-{c}");
-        match (mode.as_str(), c % 10) {
+        match (mode.as_str(), c % 12) {
             ("fi", _) | ("all", 0..=2) => case_fi(out, &mut r, &id),
             ("ctx", _) | ("all", 3..=5) => case_ctx(out, &mut r, &id),
             ("prune", _) | ("all", 6..=7) => case_prune(out, &mut r, &id),
             ("malformed", _) | ("all", 8) => case_malformed(out, &mut r, &id),
+            ("engine", _) | ("all", 10..=11) => case_engine(out, &mut r, &id),
             _ => case_api(out, &mut r, &id),
         }
     }
@@ -2813,4 +2843,540 @@ fn api_line(out: &mut Out, line: &str) {
         Some(am) => api_run(out, &am),
         None => { out.emit(line, "-"); }
     }
+}
+
+// ---------------------------------------------------------------------------------------------
+// engine-level cases (`fl.post`, `fl.solve`): the real search over float / mixed stores
+// (C06 / C07 end to end).  `fl.solve <seed> <fuel>`: seed < 0 = FIFO agenda, otherwise hook H3;
+// root LP step off (hook H4); `fuel` = depth budget of the model (two units per level).
+//
+// `Engine::next` cannot be interrupted inside a descent, so the real search is only called after a
+// PRE-FLIGHT depth-first search that drives the real components (`split_on_unassigned` and its
+// iterator, `Agenda`, `search::propagate`) with the model's depth accounting: if it ends within the
+// budget the real `search_with_timeout_and_memory(..).next()` is run and ITS answer is the result
+// line (values, propagation_count, node_count; the final store is the pre-flight leaf, and both must
+// agree); if the descent exceeds the depth budget the result line is `diverge`.
+// ---------------------------------------------------------------------------------------------
+use selen::search::agenda::Agenda;
+use selen::search::branch::split_on_unassigned;
+use selen::search::mode::Enumerate;
+use selen::search::{propagate, search_with_timeout_and_memory, Space};
+
+const NODE_BUDGET: usize = 40000;
+
+enum Pre {
+    Sol(Vec<VState>, usize, usize),
+    NoSol,
+    /// depth budget exceeded; `true` = a branch that left every domain unchanged lies on the path
+    Diverge(bool),
+    Budget,
+}
+
+fn mk_space(vars: Vars, props: Propagators) -> Space {
+    Space { vars, props, trail: selen::search::trail::Trail::new(), lp_solver_used: false, lp_constraint_count: 0, lp_variable_count: 0, lp_stats: None }
+}
+
+fn var_states(vars: &Vars, ids: &[VarId]) -> Vec<VState> {
+    ids.iter()
+        .map(|id| match &vars[*id] {
+            Var::VarF(iv) => VState::F(iv.min, iv.max, iv.step),
+            Var::VarI(s) => {
+                let mut v = s.to_vec();
+                v.sort();
+                VState::I(v)
+            }
+        })
+        .collect()
+}
+
+fn show_vstates(st: &[VState]) -> String {
+    st.iter()
+        .map(|s| match s {
+            VState::F(a, b, c) => format!("f:{}:{}:{}", sf(*a), sf(*b), sf(*c)),
+            VState::I(v) => format!("i:{}", crate::out::show_ints(v)),
+        })
+        .collect::<Vec<_>>()
+        .join("|")
+}
+
+fn pre_explore(space: Space, ids: &[VarId], fuel: usize, nodes: &mut usize) -> Pre {
+    if fuel == 0 {
+        return Pre::Diverge(false);
+    }
+    let before = var_states(&space.vars, ids);
+    let mut it = split_on_unassigned(space);
+    while let Some((mut sp, p)) = it.next() {
+        if fuel == 1 {
+            return Pre::Diverge(false);
+        }
+        *nodes += 1;
+        if *nodes > NODE_BUDGET {
+            return Pre::Budget;
+        }
+        sp.props.increment_node_count();
+        let agenda = Agenda::with_props(std::iter::once(p));
+        if let Some((stalled, sp2)) = propagate(sp, agenda) {
+            if !stalled {
+                return Pre::Sol(var_states(&sp2.vars, ids), sp2.get_propagation_count(), sp2.get_node_count());
+            }
+            let same = var_states(&sp2.vars, ids) == before;
+            match pre_explore(sp2, ids, fuel - 2, nodes) {
+                Pre::NoSol => {}
+                Pre::Diverge(np) => return Pre::Diverge(np || same),
+                r => return r,
+            }
+        }
+    }
+    Pre::NoSol
+}
+
+/// affine form `a*x + b` of a view of depth <= 1 (Next / Prev directly over an integer variable
+/// shift by one; over a float variable they move by one step, which the tolerances absorb)
+fn view_affine_d(v: &FVS, decl: &[VState]) -> (f64, f64, Option<usize>) {
+    match v {
+        FVS::Next(i) | FVS::Prev(i) => {
+            if let FVS::V(x) = &**i {
+                if matches!(decl[*x], VState::I(_)) {
+                    return (1.0, if matches!(v, FVS::Next(_)) { 1.0 } else { -1.0 }, Some(*x));
+                }
+            }
+            view_affine(i)
+        }
+        _ => view_affine(v),
+    }
+}
+fn view_affine(v: &FVS) -> (f64, f64, Option<usize>) {
+    match v {
+        FVS::C(k) => (0.0, k.as_f64(), None),
+        FVS::V(i) => (1.0, 0.0, Some(*i)),
+        FVS::Opp(v) => { let (a, b, x) = view_affine(v); (-a, -b, x) }
+        FVS::Plus(k, v) => { let (a, b, x) = view_affine(v); (a, b + k.as_f64(), x) }
+        FVS::TPos(k, v) | FVS::Times(k, v) | FVS::TNeg(k, v) => { let (a, b, x) = view_affine(v); (a * k.as_f64(), b * k.as_f64(), x) }
+        FVS::Next(v) | FVS::Prev(v) => view_affine(v),
+    }
+}
+
+fn ex_min(a: Ex, b: Ex) -> Ex { if b.lt(&a) { b } else { a } }
+
+/// C06 oracle for one posted row at the returned point (exact arithmetic for linear rows):
+///   `<=` row:  Σ cⱼxⱼ ≤ C + minᵢ |cᵢ|·max(3·stepᵢ, 1e-5·(|xᵢ|+2·stepᵢ)) + Σⱼ |cⱼ|·1.5·stepⱼ + 2⁻⁴⁰·magnitude
+///   (i over the float variables with |cᵢ| ≥ 1e-12: the tolerance of `C06_solve_within_tolerance`)
+fn check_post_row(k: &FK, vals: &[f64], decl: &[VState]) -> Option<(String, &'static str)> {
+    let step_of = |x: usize| match &decl[x] { VState::F(_, _, s) => *s, VState::I(_) => 0.0 };
+    let pt = |x: usize| (3.0 * step_of(x)).max(1e-5 * (vals[x].abs() + 2.0 * step_of(x)));
+    match k {
+        FK::Lin(kind @ (0 | 1), cs, xs, c, None) => {
+            if !c.is_finite() || cs.iter().any(|c| !c.is_finite()) || xs.iter().any(|x| !vals[*x].is_finite()) {
+                return None;
+            }
+            let mut d = exf(*c).neg();
+            let mut widths = Ex::zero();
+            let mut mag = exf(*c).abs();
+            let mut best: Option<Ex> = None;
+            let mut all = Ex::zero();
+            for (ci, xi) in cs.iter().zip(xs) {
+                d = d.add(&exf(*ci).mul(&exf(vals[*xi])));
+                mag = mag.add(&exf(*ci).mul(&exf(vals[*xi])).abs());
+                widths = widths.add(&exf(*ci).abs().mul(&exf(1.5 * step_of(*xi))));
+                if matches!(decl[*xi], VState::F(..)) && ci.abs() >= 1e-12 {
+                    let t = exf(*ci).abs().mul(&exf(pt(*xi)));
+                    all = all.add(&t);
+                    best = Some(match best { None => t, Some(b) => ex_min(b, t) });
+                }
+            }
+            let round = mag.scale2(-40);
+            if *kind == 1 {
+                match best {
+                    None => if d.gt(&round) { Some((format!("lhs-C = {:e} on a row without float variable", d.approx()), "int-var-in-float-linear")) } else { None },
+                    Some(b) => {
+                        let tol = b.add(&widths).add(&round);
+                        if d.gt(&tol) { Some((format!("lhs-C = {:e}, tolerance {:e}", d.approx(), tol.approx()), "-")) } else { None }
+                    }
+                }
+            } else {
+                // equality: both directions, all precision tolerances, plus the 1e-4 "already fixed" skip
+                let mut sum_abs = Ex::zero();
+                for ci in cs { sum_abs = sum_abs.add(&exf(*ci).abs()); }
+                let tol = all.add(&widths).add(&round).add(&sum_abs.mul(&exf(1e-4)));
+                if d.abs().gt(&tol) { Some((format!("|lhs-C| = {:e}, tolerance {:e}", d.approx(), tol.approx()), "-")) } else { None }
+            }
+        }
+        FK::Leq(x, y) | FK::Lt(x, y) | FK::Eq(x, y) => {
+            let (ax, bx, vx) = view_affine_d(x, decl);
+            let (ay, by, vy) = view_affine_d(y, decl);
+            let val = |a: f64, b: f64, v: Option<usize>| a * v.map_or(0.0, |i| vals[i]) + b;
+            let tolv = |a: f64, v: Option<usize>| v.map_or(0.0, |i| a.abs() * (pt(i) + 2.5 * step_of(i)));
+            let d = val(ax, bx, vx) - val(ay, by, vy);
+            let tol = tolv(ax, vx) + tolv(ay, vy) + 1e-9 * (val(ax, bx, vx).abs() + val(ay, by, vy).abs());
+            let bad = if matches!(k, FK::Eq(..)) { d.abs() > tol } else { d > tol };
+            if bad { Some((format!("x-y = {d:e}, tolerance {tol:e}"), "-")) } else { None }
+        }
+        _ => None,
+    }
+}
+
+/// does the witness satisfy the posted row with the margin the C07 oracle demands
+/// (`<=` rows: `row_slack`; equalities exactly at grid points; comparisons at views: 4 steps)
+fn witness_protected(k: &FK, a: &[FV], decl: &[VState]) -> bool {
+    let step_of = |x: usize| match &decl[x] { VState::F(_, _, s) => *s, VState::I(_) => 0.0 };
+    match k {
+        FK::Lin(1, cs, xs, c, None) => row_slack(cs, xs, *c, a, decl).map_or(false, |(s, m)| s.ge(&m)),
+        FK::Lin(0, cs, xs, c, None) => row_slack(cs, xs, *c, a, decl).map_or(false, |(s, _)| s.is_zero()) && on_grid(a, xs, decl),
+        FK::Leq(x, y) | FK::Lt(x, y) => {
+            let (ax, bx, vx) = view_affine_d(x, decl);
+            let (ay, by, vy) = view_affine_d(y, decl);
+            let val = |a0: f64, b: f64, v: Option<usize>| a0 * v.map_or(0.0, |i| a[i].as_f64()) + b;
+            let mg = |a0: f64, v: Option<usize>| v.map_or(0.0, |i| a0.abs() * 4.0 * step_of(i).max(if matches!(decl[i], VState::I(_)) { 0.25 } else { 0.0 }));
+            let strict = if matches!(k, FK::Lt(..)) { 1.0 } else { 0.0 };
+            val(ax, bx, vx) + mg(ax, vx) + mg(ay, vy) + strict * 1e-9 + 1e-9 * (val(ax, bx, vx).abs() + val(ay, by, vy).abs()) <= val(ay, by, vy)
+        }
+        _ => false,
+    }
+}
+
+fn apply_solve(fc: &mut FCase, out: &mut Out, line: &str, seed: i64, fuel: usize) {
+    let ids = fc.ids.clone();
+    let posts = fc.posts.clone();
+    let vars0 = fc.vars.clone();
+    let decl = fc.states();
+    let build = || {
+        let mut props = Propagators::default();
+        for _ in &ids {
+            props.on_new_var();
+        }
+        for k in &posts {
+            k.post(&mut props, &ids);
+        }
+        (vars0.clone(), props)
+    };
+    hooks::set_agenda_seed(if seed < 0 { None } else { Some(seed as u64) });
+    hooks::set_root_lp_disabled(true);
+    let mut nodes = 0usize;
+    let pre = guarded(|| {
+        let (vars, props) = build();
+        let agenda = Agenda::with_props(props.get_prop_ids_iter());
+        match propagate(mk_space(vars, props), agenda) {
+            None => Pre::NoSol,
+            Some((false, sp)) => Pre::Sol(var_states(&sp.vars, &ids), sp.get_propagation_count(), sp.get_node_count()),
+            Some((true, sp)) => pre_explore(sp, &ids, fuel, &mut nodes),
+        }
+    });
+    let reset = || {
+        hooks::set_agenda_seed(None);
+        hooks::set_root_lp_disabled(false);
+    };
+    out.stat_n("fe.preflight-nodes", nodes as u64);
+    let applies = fc.witness.as_ref().map_or(false, |a| a.len() == decl.len() && witness_inside(&decl, a).is_none() && posts.iter().all(|k| witness_protected(k, a, &decl)));
+    out.stat(if applies { "fe.c07.applies" } else { "fe.c07.not-applicable" });
+    let pre = match pre {
+        None => {
+            reset();
+            let l = out.emit(line, "panic");
+            out.stat("fe.result.panic");
+            out.fail(l, "C17", "-", format!("panic in the search of {:?}", posts.iter().map(|k| k.tokens()).collect::<Vec<_>>()));
+            return;
+        }
+        Some(Pre::Budget) => {
+            reset();
+            // dropped: the model's fuel is a depth, not a node count
+            out.emit(line.replacen("fl.solve", "#fl.solve-dropped", 1), "-");
+            out.stat("fe.dropped.node-budget");
+            return;
+        }
+        Some(p) => p,
+    };
+    if let Pre::Diverge(np) = pre {
+        reset();
+        let l = out.emit(line, "diverge");
+        out.stat("fe.result.diverge");
+        // matcher of `float-split-no-progress`: some float domain whose step is below the ulp of its bounds
+        let sub_ulp = decl.iter().any(|s| matches!(s, VState::F(lo, hi, st) if *st < UlpUtils::ulp(*lo) || *st < UlpUtils::ulp(*hi)));
+        let tag = if !np { "-" } else if sub_ulp { "float-split-no-progress" } else { "float-split-half-step-no-progress" };
+        out.fail(l, "C07", tag, format!("the depth-first search exceeds depth {} (no-progress branch on the path: {np}); domains {} rows {:?}", fuel / 2, show_vstates(&decl), posts.iter().map(|k| k.tokens()).collect::<Vec<_>>()));
+        return;
+    }
+    // the real search
+    let real = guarded(|| {
+        let (vars, props) = build();
+        let mut it = search_with_timeout_and_memory(vars, props, Enumerate, None, None, vec![], 6);
+        it.next().map(|s| (ids.iter().map(|id| s[*id]).collect::<Vec<Val>>(), s.stats.propagation_count, s.stats.node_count))
+    });
+    reset();
+    let Some(real) = real else {
+        let l = out.emit(line, "panic");
+        out.fail(l, "C17", "-", "panic in search_with_timeout_and_memory".to_string());
+        return;
+    };
+    match (&real, &pre) {
+        (None, Pre::NoSol) => {
+            let l = out.emit(line, "nosol");
+            out.stat("fe.result.nosol");
+            if applies {
+                let mixed_eq = posts.iter().any(|k| matches!(k, FK::Lin(0, cs, xs, _, None) if {
+                    let nz: Vec<usize> = cs.iter().zip(xs).filter(|(c, _)| c.abs() >= 1e-12).map(|(_, x)| *x).collect();
+                    nz.iter().any(|x| matches!(decl[*x], VState::F(..))) && nz.iter().any(|x| matches!(decl[*x], VState::I(_)))
+                }));
+                // `result_type` of a view of depth <= 1
+                let is_float = |v: &FVS| -> bool {
+                    fn go(v: &FVS, decl: &[VState]) -> bool {
+                        match v {
+                            FVS::C(k) => matches!(k, FV::F(_)),
+                            FVS::V(i) => matches!(decl[*i], VState::F(..)),
+                            FVS::Opp(v) | FVS::Next(v) | FVS::Prev(v) => go(v, decl),
+                            FVS::Plus(k, v) | FVS::TPos(k, v) | FVS::Times(k, v) | FVS::TNeg(k, v) => go(v, decl) || matches!(k, FV::F(_)),
+                        }
+                    }
+                    go(v, &decl)
+                };
+                // `Prev` over a float variable bounded by an integer value (known finding, C13)
+                let prev_int = posts.iter().any(|k| match k {
+                    FK::Leq(x, y) | FK::Lt(x, y) | FK::Eq(x, y) => [(x, y), (y, x)].iter().any(|(p, o)| matches!(p, FVS::Prev(i) if is_float(i)) && !is_float(o)),
+                    _ => false,
+                });
+                // `less_than(x, y)` = `Next(x) <= y`: an integer-typed left side is shifted by a whole
+                // unit even when the right side is a float view; witnesses with y - x < 1 are lost
+                let lt_int_left = posts.iter().any(|k| match k {
+                    FK::Lt(x, y) if !is_float(x) && is_float(y) => {
+                        let a = fc.witness.as_ref().unwrap();
+                        let val = |v: &FVS| { let (s, b, i) = view_affine_d(v, &decl); s * i.map_or(0.0, |i| a[i].as_f64()) + b };
+                        val(y) - val(x) < 1.0
+                    }
+                    _ => false,
+                });
+                // TimesPos with an integer scale over a float variable bounded by an integer value: integer
+                // division (known finding, C13)
+                let tpos_int = posts.iter().any(|k| match k {
+                    FK::Leq(x, y) | FK::Lt(x, y) | FK::Eq(x, y) => [(x, y), (y, x)].iter().any(|(p, o)| matches!(p, FVS::TPos(FV::I(_), i) | FVS::Times(FV::I(_), i) | FVS::TNeg(FV::I(_), i) if is_float(i)) && !is_float(o)),
+                    _ => false,
+                });
+                let tag = if mixed_eq { "float-eq-int-var-rounding" } else if tpos_int { "timespos-int-division-on-float-view" } else if prev_int { "prev-int-bound-on-float-view-shifts-by-one" } else if lt_int_left { "strict-cmp-int-left-unit-step" } else { "-" };
+                out.fail(l, "C07", tag, format!("search = no solution although the witness {:?} satisfies every row with margin; domains {} rows {:?}", fc.witness, show_vstates(&decl), posts.iter().map(|k| k.tokens()).collect::<Vec<_>>()));
+            }
+        }
+        (Some((vals, pc, nc)), Pre::Sol(st, ppc, pnc)) => {
+            let l = out.emit(line, format!("sol pc={pc} nc={nc} v={} st={}", vals.iter().map(|v| FV::show(*v)).collect::<Vec<_>>().join(","), show_vstates(st)));
+            out.stat("fe.result.sol");
+            out.stat(if *nc == 0 { "fe.sol.at-root" } else { "fe.sol.by-search" });
+            out.stat_n("fe.sol.nodes", *nc as u64);
+            // harness self-check: the engine and the pre-flight search agree
+            let agree = pc == ppc && nc == pnc && vals.iter().zip(st).all(|(v, s)| match (v, s) {
+                (Val::ValF(f), VState::F(lo, _, _)) => f.to_bits() == lo.to_bits() || (f.is_nan() && lo.is_nan()),
+                (Val::ValI(i), VState::I(d)) => d.len() == 1 && d[0] == *i,
+                _ => false,
+            });
+            if !agree {
+                out.fail(l, "C06", "-", format!("Engine::next and the pre-flight search disagree: {vals:?} pc={pc} nc={nc} vs {st:?} pc={ppc} nc={pnc}"));
+            }
+            // C06: bounds, integrality, rows
+            let mut fv = vec![];
+            for (i, (v, d)) in vals.iter().zip(&decl).enumerate() {
+                match (v, d) {
+                    (Val::ValF(f), VState::F(lo, hi, _)) => {
+                        if !(*f >= *lo && *f <= *hi) {
+                            out.fail(l, "C06", "-", format!("float variable {i} = {f:e} outside its declared bounds [{lo:e},{hi:e}]"));
+                        }
+                        fv.push(*f);
+                    }
+                    (Val::ValI(k), VState::I(dom)) => {
+                        if !dom.contains(k) {
+                            out.fail(l, "C06", "-", format!("integer variable {i} = {k} not in its domain {dom:?}"));
+                        }
+                        fv.push(*k as f64);
+                    }
+                    (v, d) => {
+                        out.fail(l, "C06", "-", format!("variable {i}: value {v:?} of the wrong kind for {d:?}"));
+                        fv.push(match v { Val::ValF(f) => *f, Val::ValI(k) => *k as f64 });
+                    }
+                }
+            }
+            for k in &posts {
+                if let Some((d, tag)) = check_post_row(k, &fv, &decl) {
+                    out.fail(l, "C06", tag, format!("row {} violated by the returned point {fv:?}: {d}", k.tokens()));
+                }
+            }
+        }
+        (r, _) => {
+            let l = out.emit(line, match r { None => "nosol".to_string(), Some((vals, pc, nc)) => format!("sol pc={pc} nc={nc} v={} st=?", vals.iter().map(|v| FV::show(*v)).collect::<Vec<_>>().join(",")) });
+            out.fail(l, "C06", "-", "Engine::next and the pre-flight search disagree on the verdict".to_string());
+        }
+    }
+}
+
+/// a model of 1–4 float / integer variables with `FloatLinLe/Eq` rows and comparisons at views
+/// built AROUND A WITNESS point (mostly on the step grid, bounds mostly on the grid)
+fn case_engine(out: &mut Out, r: &mut Rng, id: &str) {
+    out.case(id);
+    let mut fc = FCase::new();
+    let nv = r.range(1, 4) as usize;
+    let dyadic = r.chance(1, 2);
+    let common_step = if dyadic { (-(r.range(0, 12) as f64)).exp2() } else { precision_to_step_size(r.range(1, 6) as i32) };
+    let mut wit: Vec<FV> = vec![];
+    let mut steps: Vec<f64> = vec![];
+    for _ in 0..nv {
+        if r.chance(1, 4) {
+            let d = if r.chance(1, 2) { gen_int_dom(r) } else { let lo = r.range(-20, 10) as i32; (lo..=lo + r.range(0, 14) as i32).collect() };
+            wit.push(FV::I(*r.pick(&d)));
+            steps.push(0.0);
+            add_int_var(&mut fc, out, &d);
+            out.stat("fe.var.int");
+        } else {
+            let step = if r.chance(3, 4) { common_step } else if dyadic { (-(r.range(0, 12) as f64)).exp2() } else { *r.pick(&[0.1, 0.25, 0.3, 0.5, 1.0, 2.0, 1e-3]) };
+            let k = r.range(-3000, 3000);
+            let span = match r.below(8) { 0 => 2, 1 | 2 => 6, 3 | 4 => 60, 5 | 6 => 3000, _ => 300000 };
+            let mut lo = (k - r.range(0, span)) as f64 * step;
+            let mut hi = (k + r.range(0, span)) as f64 * step;
+            let offgrid = r.chance(1, 4);
+            if offgrid {
+                lo += step * *r.pick(&[0.5, 0.25, 0.3, 0.75, 0.5]);
+                if r.chance(1, 3) { hi += step * *r.pick(&[0.5, 0.25, 0.3, 0.75]); }
+                if lo > hi { hi = lo; }
+            }
+            if r.chance(1, 12) { hi = lo; }
+            let mut w = k as f64 * step;
+            if w < lo { w = ((lo / step).ceil() * step).min(hi).max(lo); }
+            if w > hi { w = hi; }
+            if r.chance(1, 10) {
+                let w2 = w + 0.37 * step;
+                if w2 <= hi { w = w2; out.stat("fe.witness.off-grid"); }
+            }
+            wit.push(FV::F(w));
+            steps.push(step);
+            add_float_var(&mut fc, out, lo, hi, step);
+            out.stat(if offgrid { "fe.var.float.bounds-off-grid" } else { "fe.var.float.bounds-on-grid" });
+        }
+    }
+    apply(&mut fc, out, &format!("fl.witness {}", wit.iter().map(|w| w.tokens()).collect::<Vec<_>>().join(" ")));
+    let nrows = r.range(0, 4);
+    let smax = steps.iter().cloned().fold(0.0, f64::max);
+    for _ in 0..nrows {
+        let kind = r.below(10);
+        let tok = if kind < 6 {
+            let n = r.range(1, nv as i64) as usize;
+            let mut xs: Vec<usize> = (0..nv).collect();
+            for i in 0..nv {
+                let j = r.range(i as i64, nv as i64 - 1) as usize;
+                xs.swap(i, j);
+            }
+            xs.truncate(n);
+            let is_eq = kind == 5;
+            let cs: Vec<f64> = xs.iter().map(|_| if is_eq {
+                *r.pick(&[1.0, -1.0, 2.0, -2.0, 0.5, -0.5, 3.0, 4.0, -3.0])
+            } else { match r.below(8) {
+                0 => 1.0,
+                1 => -1.0,
+                2 => r.range(-5, 5) as f64,
+                3 => r.range(-8, 8) as f64 * 0.5,
+                4 => r.range(-30, 30) as f64 * 0.1,
+                5 => if r.chance(1, 3) { 1e-13 } else { 0.0 },
+                _ => r.range(-40, 40) as f64 * 0.25,
+            } }).collect();
+            let sum: f64 = cs.iter().zip(&xs).map(|(c, x)| c * wit[*x].as_f64()).sum();
+            let sum_abs: f64 = cs.iter().map(|c| c.abs()).sum();
+            if is_eq {
+                FK::Lin(0, cs, xs, sum, None).tokens()
+            } else {
+                let c = match r.below(10) {
+                    0 => sum,                                                    // tight
+                    1 => sum + smax * sum_abs * 0.5,                             // below the margin
+                    2 => sum - smax.max(0.25) * sum_abs.max(1.0) * r.range(1, 30) as f64, // violated by the witness
+                    _ => sum + smax.max(1e-3) * sum_abs * r.range(5, 60) as f64 + sum.abs() * 1e-9,
+                };
+                FK::Lin(1, cs, xs, c, None).tokens()
+            }
+        } else {
+            // comparison between two views, oriented so that it holds at the witness
+            let x = r.below(nv as u64) as usize;
+            let y = r.below(nv as u64) as usize;
+            let mk = |r: &mut Rng, v: usize| -> FVS {
+                match r.below(8) {
+                    0 => FVS::Plus(small_fv(r, common_step), Box::new(FVS::V(v))),
+                    1 => FVS::Next(Box::new(FVS::V(v))),
+                    2 => FVS::Prev(Box::new(FVS::V(v))),
+                    3 => FVS::TPos(if r.chance(1, 2) { FV::I(r.range(1, 3) as i32) } else { FV::F(*r.pick(&[0.5, 2.0, 1.5])) }, Box::new(FVS::V(v))),
+                    4 => FVS::Opp(Box::new(FVS::V(v))),
+                    _ => FVS::V(v),
+                }
+            };
+            let vx = mk(r, x);
+            let vy = if r.chance(1, 4) { FVS::C(small_fv(r, common_step)) } else { mk(r, y) };
+            let val = |v: &FVS| { let (a, b, i) = view_affine(v); a * i.map_or(0.0, |i| wit[i].as_f64()) + b };
+            let (l, g) = if val(&vx) <= val(&vy) { (vx, vy) } else { (vy, vx) };
+            match r.below(4) {
+                0 => FK::Lt(l, g).tokens(),
+                1 if val(&l) == val(&g) && !matches!(l, FVS::C(_)) => FK::Eq(l, g).tokens(),
+                _ => FK::Leq(l, g).tokens(),
+            }
+        };
+        apply(&mut fc, out, &format!("fl.post {tok}"));
+    }
+    let seed = if r.chance(3, 4) { -1 } else { r.range(0, 1000) };
+    apply(&mut fc, out, &format!("fl.solve {seed} 1000"));
+}
+
+/// one float variable [a*h, b*h] (h = step/2, so bounds on and off the step grid), alone and with
+/// every row `x <= c*h`, `a <= c <= b`: exhaustive over |a|,|b| <= u
+fn suite_engine_exhaustive(out: &mut Out, u: i64) {
+    for step in [0.25f64, 0.1, 1.0] {
+        let h = step / 2.0;
+        for a in -u..=u {
+            for b in a..=u {
+                for c in (a - 1)..=b {
+                    out.case(&format!("fex-{step}-{a}-{b}-{c}"));
+                    let mut fc = FCase::new();
+                    add_float_var(&mut fc, out, a as f64 * h, b as f64 * h, step);
+                    if c >= a {
+                        apply(&mut fc, out, &format!("fl.post {}", FK::Lin(1, vec![1.0], vec![0], c as f64 * h, None).tokens()));
+                    }
+                    apply(&mut fc, out, "fl.solve -1 200");
+                }
+            }
+        }
+    }
+}
+
+/// `--mode probe`: looks for the smallest `Model::float(lo, hi)` declarations (public API, decimal
+/// steps 10^-digits) on which the props-level search diverges, then confirms on the PUBLIC API
+/// (`Model::solve` with a 300 ms timeout configured) in a watchdog thread that solve() does not
+/// return within 3 s.  Reproducer finder for `float-split-half-step-no-progress`; prints to stderr.
+fn suite_probe(out: &mut Out) {
+    for digits in 1..=6 {
+        let step = precision_to_step_size(digits);
+        let mut found = 0;
+        'k: for k in 0..60i64 {
+            for n in 2..80i64 {
+                for (lo, hi) in [((k as f64 + 0.5) * step, (k + n) as f64 * step), (k as f64 * step + step / 2.0, k as f64 * step + step / 2.0 + n as f64 * step)] {
+                    let before = out.ops.len();
+                    out.case(&format!("probe-{digits}-{k}-{n}"));
+                    let mut fc = FCase::new();
+                    add_float_var(&mut fc, out, lo, hi, step);
+                    apply(&mut fc, out, "fl.solve -1 400");
+                    if out.imp.last().map(|s| s.as_str()) != Some("diverge") {
+                        out.ops.truncate(before);
+                        out.imp.truncate(before);
+                        out.oracle.retain(|o| o.0 < before);
+                        continue;
+                    }
+                    // public API, watchdog thread
+                    let (tx, rx) = std::sync::mpsc::channel();
+                    std::thread::spawn(move || {
+                        let cfg = sp::config::SolverConfig::default().with_float_precision(digits).with_timeout_ms(300);
+                        let mut m = Model::with_config(cfg);
+                        let x = m.float(lo, hi);
+                        let r = m.solve().map(|s| match s[x] { sp::Val::ValF(f) => f, sp::Val::ValI(i) => i as f64 });
+                        let _ = tx.send(format!("{r:?}"));
+                    });
+                    let verdict = match rx.recv_timeout(std::time::Duration::from_secs(3)) {
+                        Ok(r) => format!("returned {r}"),
+                        Err(_) => "DID NOT RETURN within 3 s (timeout 300 ms configured)".to_string(),
+                    };
+                    eprintln!("with_float_precision({digits}); float({lo:?}, {hi:?}); solve(): {verdict}");
+                    found += 1;
+                    if found >= 2 { break 'k; }
+                }
+            }
+        }
+    }
+    // the watchdog threads still run: leave without waiting for them
+    let _ = out.write(&std::env::args().skip_while(|a| a != "--out").nth(1).unwrap_or_else(|| "/tmp".into()), "float");
+    std::process::exit(0);
 }
